@@ -64,6 +64,7 @@ type c20Case struct {
 	Args    []int           `json:"args,omitempty"`
 	ErrAt   int             `json:"errAt"`
 	ErrDone bool            `json:"errDone"` // the failing step also reports done
+	NilEff  bool            `json:"nilEff"`  // match: the effects return nil (side effects only)
 	Calls   []c20Call       `json:"calls,omitempty"`
 	Ps      []c20Pat        `json:"ps,omitempty"`
 	Probe   json.RawMessage `json:"probe,omitempty"`
@@ -597,7 +598,8 @@ func c20Match(c *c20Case) map[string]interface{} {
 	json.Unmarshal(c.Probe, &probe)
 	var praw interface{}
 	json.Unmarshal(c.Probe, &praw)
-	out := map[string]interface{}{"part": c.Part, "fn": c.Fn, "ps": c.Ps, "probe": praw, "out": 0, "applied": true}
+	out := map[string]interface{}{"part": c.Part, "fn": c.Fn, "ps": c.Ps, "probe": praw, "out": 0, "applied": true, "nilEff": c.NilEff}
+	ran := 0
 	v, ok := c20Probes[probe.Name]
 	if !ok {
 		panic("probe " + probe.Name)
@@ -605,7 +607,13 @@ func c20Match(c *c20Case) map[string]interface{} {
 	var pats []fpgo.Pattern
 	for i, p := range c.Ps {
 		idx := i + 1
-		eff := func(got interface{}) interface{} { return idx }
+		eff := func(got interface{}) interface{} {
+			ran = idx
+			if c.NilEff { // a handler called for its side effect only
+				return nil
+			}
+			return idx
+		}
 		switch p.P {
 		case "kind":
 			pats = append(pats, fpgo.InCaseOfKind(c20Kind(p.Kind), eff))
@@ -633,7 +641,14 @@ func c20Match(c *c20Case) map[string]interface{} {
 		} else {
 			r = fpgo.DefPattern(pats...).MatchFor(v)
 		}
-		out["out"] = r.(int)
+		if c.NilEff {
+			if r != nil {
+				ran = -1 // the match must hand back what the effect returned
+			}
+			out["out"] = ran
+		} else {
+			out["out"] = r.(int)
+		}
 	}()
 	return out
 }
